@@ -37,7 +37,8 @@ return ok, "compared"
 """
 
 STATE = """
-reset_singletons()
+with notrace():
+    reset_module_state()
 S = {expr}
 OTHER = pick(({others}), oi)
 REGEX_GEN._alphabet["letters"], saved = SMALL_LETTERS, REGEX_GEN._alphabet["letters"]
